@@ -144,7 +144,7 @@ def triple_specs(ctx: Ctx):
                         out.append({'N': N, 'n': n, 'edges': edges, 'gates': gates, 'ops': ops, 'placement': pl})
     n_exh = len(out)
     # random: up to 5 qudits
-    for _ in range(700 if ctx.quick else 12000):
+    for _ in range(700 if ctx.quick else 6000):
         N = rng.randint(2, 5)
         n = rng.randint(1, N)
         edges = set()
@@ -220,13 +220,13 @@ def compile_cases(ctx: Ctx):
         N = w + extra
         cases.append({'kind': 'circuit', 'radix': 2, 'n': w, 'ops': directed_ops(w, rich), 'level': lvl,
                       'model': {'n': N, 'edges': cc.topo_edges(topo, N, rng), 'gates': cc.GATESETS[gs], 'radix': 2, 'topo': topo, 'gs': gs}})
-    nrand = 15 if ctx.quick else 200
+    nrand = 15 if ctx.quick else 80
     for _ in range(nrand):
         n = rng.choice([1, 2, 3, 3, 4]) if ctx.quick else rng.choice([1, 2, 3, 4, 4, 5, 6])
         level = rng.choice([1, 1, 1, 2]) if ctx.quick else (rng.choice([1, 2, 3, 4]) if n <= 4 else rng.choice([1, 2]))
         ops = cc.random_ops(rng, n, 2, rng.randint(2, 4 + n), nonexact=True)
         cases.append({'kind': 'circuit', 'radix': 2, 'n': n, 'ops': ops, 'level': level, 'model': cc.model_spec(rng, n, gatesets=gsq)})
-    nsyn = 6 if ctx.quick else 60
+    nsyn = 6 if ctx.quick else 30
     for i in range(nsyn):
         kind = ['unitary', 'state', 'system'][i % 3]
         n = rng.choice([1, 2, 2]) if ctx.quick else rng.choice([1, 2, 2, 3])
